@@ -42,6 +42,8 @@ def gaussian_wigner_function(
 def gaussian_wigner_function_for_scalar(
     X: List[float], *, d: int, mean: np.ndarray, cov: np.ndarray
 ) -> float:
+    X = np.asarray(X)
+
     return (
         (1 / (np.pi**d))
         * np.sqrt((1 / np.linalg.det(cov)))
